@@ -412,6 +412,35 @@ def r4_count(ctx, f, rep):
                     what = 'non-Feed: the patched count is the value returned by Broadcasts::fill'
                 rep.check(good, 'C07-R4', b.nname, what, site=e['span'], construct='patched-value',
                           facts={'value': q.describe(p, v, b)})
+    # must-pass-through: once the placeholder is in the datagram, every path to the send overwrites it in place, and
+    # nothing cuts the buffer back to a position recorded before it (the reader takes the two bytes after the header
+    # for the count whenever the kind piggybacks: S198 dropped a zero count and let the custom tail follow the header)
+    n_ph = 0
+    for p in paths:
+        evs = p.events
+        calls = {c['id']: c for c in p.calls()}
+        snd = [i for i, e in enumerate(evs) if e['kind'] == 'call' and e['decl'] == 'runtime::Runtime::send_to']
+        ph = [i for i, e in enumerate(evs) if e['kind'] == 'call' and e['decl'] == 'bytes::BufMut::put_u16'
+              and touches_packet(p, e)]
+        if not snd or not ph or ph[0] > snd[0]:
+            continue
+        n_ph += 1
+        i0, i1 = ph[0], snd[0]
+        patched = [e for e in evs[i0 + 1:i1] if e['kind'] == 'call' and e['decl'] == 'bytes::BufMut::put_u16'
+                   and not touches_packet(p, dict(e, args=e['args'][:1]), mutably=False)]
+        rep.check(len(patched) == 1, 'C07-R4', b.nname, 'between the placeholder and the send the count is overwritten in place '
+                  'exactly once on this path', site=evs[i0]['span'], construct='count-patched-on-every-path',
+                  facts={'patches': len(patched)})
+        idx_of = {e['id']: k for k, e in enumerate(evs) if e['kind'] == 'call'}
+        for e in evs[i0 + 1:i1]:
+            if e['kind'] == 'call' and e['res'] == 'alloc::vec::Vec::truncate':
+                pos = e['args'][1]
+                good = pos[0] == 'call' and pos[1] in calls and calls[pos[1]]['res'] == 'alloc::vec::Vec::len' \
+                    and idx_of[pos[1]] > i0
+                rep.check(good, 'C07-R4', b.nname, 'a truncation after the placeholder cuts back to a length taken after the '
+                          'placeholder was written (the count stays in the datagram)', site=e['span'],
+                          construct='truncate-keeps-count', facts={'position': q.describe(p, pos, b)})
+    rep.floor('C07-R4', n_ph, 4, 'paths that write the placeholder and send')
     rep.floor('C07-R4', n_inc, 1, 'num_items increments')
     rep.floor('C07-R4', n_err, 1, 'encode_member error edges')
     rep.floor('C07-R4', n_patch, 2, 'count patch-ups')
